@@ -23,14 +23,15 @@ TRUSTED = ['numpy structured dtype over a memmap = fixed-size chunking (modelled
            'variable keys "<category>_<name>" are mapped back to (category, name index) by the harness; names are alphabetic']
 ASSUMPTIONS = ['table keys unique (tracer numbers in tracerinfo.dat, categories in diaginfo.dat); no two tracers of a file share offset+id',
                'one model grid per file and one time stamp per time block (what GEOS-Chem writes)']
-LEVEL_TEXT = ('Theorems (Props/C18.v, closed under the global context) over Model/Bpch.v: the record-walking spec decoder inverts the spec encoder for every '
+LEVEL_TEXT = ('Theorems (Props/C18.v, all closed under the global context) over Model/Bpch.v: the record-walking spec decoder inverts the spec encoder for every '
               'content (C18_dec_enc); for every bpch-convention content of any size except (1 tracer x 2 time blocks) the model of bpch1 (header walk, time_type strides, '
               'itemcount, assertions; field positions from the translated dtype literals) presents exactly the content (C18_reader_presents_content_partial), '
-              'ncf2bpch reproduces the bytes (C18_read_write_bytes_partial), writing any well-formed view and reading it back returns it '
-              '(C18_write_read_partial); the dict-based name/scale/unit lookup equals the offset(category)+id association (C18_scale_lookup); refuted with vm_compute '
-              'witnesses: 1 tracer x 2 time blocks cannot be opened, > 48 layers with the default vertgrid raises (known findings). Tie T: dtype literals and pads '
-              'regenerated from _bpch.py into coq/Gen/Bpch.v; tie H: reference encoder == Coq enc, bpch1 == impl_open, ncf2bpch == impl_write on every case. '
-              'bpch2 (clause 4) is not modelled: it cannot run on numpy 2 (known finding).')
+              'ncf2bpch reproduces the words (C18_read_write_bytes_partial; the writer alone for every content: C18_writer_conforms), writing any bpch-convention view and '
+              'reading it back returns it (C18_write_read_partial); with unique table keys the dict-based name/scale/unit lookup is the offset(category)+id association '
+              '(C18_scale_lookup, C18_lookup_is_association); reader/writer layouts and pads agree (C18_layouts, re-checked against the source on every run). Refuted with '
+              'vm_compute witnesses that replay on the library (known findings): C18_one_tracer_two_times_refuted, C18_more_than_48_layers_refuted. Tie T: dtype literals, '
+              'pads and skip regenerated from _bpch.py into coq/Gen/Bpch.v; tie H: reference encoder == Coq enc, bpch1 == impl_open (incl. every error outcome on a malformed '
+              'stream), ncf2bpch == impl_write on every case. Clause 4 (bpch2) has no theorem: bpch2 cannot run on numpy 2 (known finding) and is not modelled.')
 LEVEL_NOTE = ('Trusted: Coq kernel + vm_compute, py2coq and the driver normalisation, the harness (observation of the library object, string pools). Scaled WRITE '
               '(vals / scale) is checked on exact values by correspondence only; inexact binary32 scaling is decided by a Python oracle.')
 TECHNIQUE = 'Coq proof (codec round trip, reader/writer model refinement over Fortran record framing) + translation from source + differential correspondence'
